@@ -7,7 +7,6 @@ package dot
 import (
 	"fmt"
 	"strconv"
-	"strings"
 
 	"gonum.org/v1/gonum/graph"
 	"gonum.org/v1/gonum/graph/encoding"
@@ -528,14 +527,19 @@ func addEdgeAttrs(edge basicEdge, attrs []*ast.Attr) {
 // unquoteID unquotes the given string if needed in the context of an ID. If s
 // is not already quoted the original string is returned.
 func unquoteID(s string) string {
-	// To make round-trips idempotent, don't unquote quoted HTML-like strings
-	//
-	//    /^"<.*>"$/
-	if len(s) >= 4 && strings.HasPrefix(s, `"<`) && strings.HasSuffix(s, `>"`) {
-		return s
-	}
 	// Unquote quoted string if possible.
 	if t, err := strconv.Unquote(s); err == nil {
+		// To make round-trips idempotent, don't unquote quoted HTML
+		// strings
+		//
+		//    /^"<.*>"$/
+		//
+		// since the unquoted form would be written as an HTML string
+		// by Marshal. Strings that only look like HTML strings are
+		// quoted by Marshal and so are unquoted here.
+		if isHTMLID(t) {
+			return s
+		}
 		return t
 	}
 	// On error, either s is not quoted or s is quoted but contains invalid
